@@ -86,7 +86,7 @@ run_frame(bool tcp, const unsigned char *X, size_t n, bool corrupted, const char
         return true; /* a zero length prefix is a channel matter, not a frame */
     /* transport-mandated option bits: the document could be read as making a
      * violation a header encoding error; the receiver may take either view */
-    if (vset == RV_OK) {
+    if (vset & RV_OK) {
         const bool mand_ok = tcp ? !(rf.options & (RO_HDCRC | RO_PLCRC))
                                  : ((rf.options & RO_HDCRC) && (((rf.options & RO_PLCRC) != 0) == (rf.plen != 0)));
         if (!mand_ok)
@@ -137,8 +137,10 @@ run_frame(bool tcp, const unsigned char *X, size_t n, bool corrupted, const char
         }
         return true;
     }
-    if (rrc < 0) {
-        mc_fail("C07/receiver-classifies", "%s: regp_recv returned %d instead of classifying the frame", fault, rrc);
+    if (rrc < 0 && iv <= RV_OK) {
+        /* the classification is observed in error.id; a receiver may in
+         * addition report the fault through its return value */
+        mc_fail("C07/receiver-classifies", "%s: regp_recv returned %d with error.id=%d instead of classifying the frame", fault, rrc, errid);
         return false;
     }
     if (!(iv & vset)) {
@@ -159,7 +161,7 @@ run_frame(bool tcp, const unsigned char *X, size_t n, bool corrupted, const char
     bool acked = false;
     for (int i = 0; i < nfr; ++i) {
         const unsigned rv = rr_verdict(scratch + fr.off[i], fr.len[i], &reply[i]);
-        if (rv != RV_OK) {
+        if (!rr_reply_ok(rv, &reply[i])) {
             mc_fail("C07/reply-well-formed", "%s: reply frame %d is not a valid frame", fault, i);
             return false;
         }
@@ -240,15 +242,18 @@ make_corpus(void)
                         continue;
                     if (!haspl && content)
                         continue;
-                    if (t == RT_WRITE_RESP && li > 1)
+                    /* write responses: the acknowledgement (no payload) and EUNMAPPED with the
+                     * four octets doc 3.1.8 prescribes, in octet semantics */
+                    const bool wr_err = t == RT_WRITE_RESP && li == 1;
+                    if (t == RT_WRITE_RESP && (li > 1 || (wr_err && w16)))
                         continue;
                     if (lens[li] == 0 && content)
                         continue;
-                    if (!g_th && lens[li] == 3)
-                        continue;
+                    if (!g_th && lens[li] == 3 && w16)
+                        continue; /* quick keeps the odd octet counts 1 and 3 of 8-bit frames */
                     struct cframe *c = &corpus[ncorpus++];
                     unsigned char pl[16];
-                    const size_t plen = haspl ? lens[li] * (w16 ? 2u : 1u) : 0;
+                    const size_t plen = wr_err ? 4 : haspl ? lens[li] * (w16 ? 2u : 1u) : 0;
                     for (size_t i = 0; i < plen; ++i)
                         pl[i] = content == 2 ? 0 /* all-zero payload: its CRC-16/ARC is 0000 */ : content ? (unsigned char)(0xc0 + 0x1b * i) : (unsigned char)(i + 1);
                     struct rframe f;
@@ -262,9 +267,9 @@ make_corpus(void)
                     f.payload = pl;
                     f.plen = plen;
                     c->n = rr_build(c->raw, &f, false, false);
-                    snprintf(c->name, sizeof c->name, "%s%s len=%zu content=%d", tn[ti], w16 ? "16" : "8", lens[li], content);
+                    snprintf(c->name, sizeof c->name, "%s%s len=%zu content=%d", tn[ti], w16 ? "16" : "8", wr_err ? (size_t)4 : lens[li], content);
                     struct rframe chk;
-                    if (rr_verdict(c->raw, c->n, &chk) != RV_OK)
+                    if (rr_verdict(c->raw, c->n, &chk) != RV_OK) /* exactly: no fault, no alternative reading */
                         mc_broken("corpus frame %s is not valid by the reference", c->name);
                 }
 }
